@@ -14,15 +14,15 @@ T = {
             "Finite boundary abstraction enumerated completely on every run; random constraint configurations beyond it sampled. No claim outside the listed types and value pools.",
             "Trusted: vlib/specs.py (the spec predicate written from the docs). Path/File/Array/DataFrame types excluded.", "3/C01"),
     "C02": ("c02_rejected_noeffect", "exploration",
-            "Hypothesis-generated link/set histories followed by one rejected attempt; oracle = full observable snapshot equality + behavioural probe of links + empty event log",
+            "Hypothesis-generated link/set histories followed by one rejected attempt (second world: Dynamic parameters sharing number generators under a time-dependent clock); oracle = full observable snapshot equality + behavioural probe of links + empty event log",
             "Random histories up to the stated size; every rejected-attempt kind x route is labelled and counted.",
             "Trusted: snapshot covers values, watcher tables, refs; behavioural probe bumps every source.", "3/C02"),
     "C03": ("c03_dispatch", "exploration",
-            "Hypothesis-generated watcher configurations and assignment programs with scripted acyclic callbacks; oracle = recursive reference dispatcher (exact trace equality) + clause predicates over the recorded trace",
+            "Hypothesis-generated watcher configurations and assignment programs (instances, class, subclass) with scripted acyclic callbacks; oracle = recursive reference dispatcher (exact trace equality) + clause predicates over the recorded trace",
             "Random programs up to 6 watchers / 10 ops / cascade depth 3.",
             "Trusted: the reference dispatcher transcribed from the property statement; equality on the stated value pool only.", "3/C03"),
     "C04": ("c04_batching", "exploration",
-            "Hypothesis-generated trees of nested batch/update/discard/trigger contexts; oracle = reference batching model + trace predicates",
+            "Hypothesis-generated trees of nested batch/update/discard/trigger contexts, plus side scenarios (update contexts over links, discard_events inside callbacks); oracle = reference batching model + trace predicates",
             "Random context trees up to depth 4 and 12 leaf operations.",
             "Trusted: the batching model derived from the statement; 'qualifying' read in the looser of its two readings.", "3/C04"),
     "C05": ("c05_faults", "fault_enumeration",
@@ -46,11 +46,11 @@ T = {
             "Operator table enumerated completely; random DAGs up to 10 nodes.",
             "Trusted: the mirror evaluator (plain Python operators).", "3/C09"),
     "C10": ("c10_async", "exploration",
-            "complete enumeration of assignment kinds x completion permutations x plain-interleave points for N<=3 on a real asyncio loop with harness-owned futures + Hypothesis sampling of N=4; oracle = latest-assignment-wins",
+            "complete enumeration of assignment kinds x completion permutations x plain-interleave points for N<=3 and of a linked-object scenario on a real asyncio loop with harness-owned futures + Hypothesis sampling of N=4 and of rx pipelines; oracle = latest-assignment-wins",
             "Schedule space for N<=3 enumerated completely; larger sampled.",
             "Trusted: the harness owns every awaitable; synchronous generators (run via to_thread) excluded.", "3/C10"),
     "C11": ("c11_inheritance", "exploration",
-            "Hypothesis-generated hierarchies (chains, diamonds, skipped levels) with random slot subsets and type changes; oracle = independent per-slot MRO resolver + spec predicate for merged-default validity",
+            "Hypothesis-generated hierarchies (chains, diamonds, skipped levels) with random slot subsets and type changes; oracle = independent per-slot MRO resolver + spec predicate for merged-default validity + validity invariant on every created class",
             "Random hierarchies up to 5 classes.",
             "Trusted: the resolver and vlib/specs.py.", "3/C11"),
     "C12": ("c12_leaks", "exploration",
@@ -62,7 +62,7 @@ T = {
             "Random histories up to 15 operations over a 4-class hierarchy.",
             "Trusted: inspect.getattr_static / __mro__ walk as the ground truth.", "3/C13"),
     "C14": ("c14_constant", "exploration",
-            "Hypothesis-generated histories of constructor args, sets, class-level sets and nested/failing edit_constant blocks; oracle = identity-of-held-object model + flag invariants",
+            "Hypothesis-generated histories of constructor args, sets, class-level sets, instance-level constants and nested/failing edit_constant blocks, plus async-window and Time.time_type scenarios; oracle = identity-of-held-object model + flag invariants",
             "Random histories up to 12 operations.",
             "Trusted: held-object model.", "3/C14"),
     "C15": ("c15_json_roundtrip", "exploration",
@@ -82,7 +82,7 @@ T = {
             "Random histories up to 12 operations on list- and dict-declared Selector/ListSelector at class and instance level; no claim beyond these sizes.",
             "Trusted: the list model; objects unique with unique str(); style-consistent operations only.", "3/C18"),
     "C19": ("c19_time", "exploration",
-            "Hypothesis-generated histories of time jumps, reads, inspections, time contexts and state push/pop; oracle = table keyed by (generator identity, time) -> first value seen",
+            "Hypothesis-generated histories of time jumps (int/Fraction/float clocks), reads, inspections, time contexts and state push/pop; oracle = table keyed by (generator identity, time) -> first value seen, one value per time for history-dependent streams, clock untouched by reads",
             "Random histories up to 20 operations over several generators, seeds and instances.",
             "Trusted: first-seen table; Dynamic.time_dependent is switched on for the case and restored.", "3/C19"),
     "C20": ("c20_pprint", "exploration",
